@@ -383,6 +383,34 @@ func buildIntrinsics() map[string]Intrinsic {
 		return m.MkStr(filepath.Join(parts...))
 	}
 	in["regexp.MatchString"] = func(m *Machine, a []Value, _ *ssa.CallCommon) Value {
+		if subj, isStr := a[1].(Str); isStr {
+			if _, conc := subj.Concrete(); !conc {
+				// symbolic subject: only anchored-literal patterns are translated (^lit, lit$, ^lit$, .*)
+				pat := m.concStr(a[0], "regexp pattern")
+				lit := strings.TrimSuffix(strings.TrimPrefix(pat, "^"), "$")
+				if pat == ".*" || pat == "" {
+					return Tuple{m.St.True, Iface{}}
+				}
+				if regexp.QuoteMeta(lit) != lit || lit == "" || (!strings.HasPrefix(pat, "^") && !strings.HasSuffix(pat, "$")) {
+					unsupportedf("regexp %q on a symbolic string", pat)
+				}
+				ls := m.MkStr(lit)
+				var r *smt.Term
+				switch {
+				case strings.HasPrefix(pat, "^") && strings.HasSuffix(pat, "$"):
+					r = m.strEq(subj, ls)
+				case strings.HasPrefix(pat, "^"):
+					r = m.hasPrefix(subj, ls)
+				default:
+					if len(ls.B) > len(subj.B) {
+						r = m.St.False
+					} else {
+						r = m.strEq(Str{B: subj.B[len(subj.B)-len(ls.B):]}, ls)
+					}
+				}
+				return Tuple{r, Iface{}}
+			}
+		}
 		ok, err := regexp.MatchString(m.concStr(a[0], "regexp pattern"), m.concStr(a[1], "regexp subject"))
 		if err != nil {
 			return Tuple{m.St.False, m.newError(err.Error())}
